@@ -23,7 +23,7 @@ RMS = ['FORK', 'SLURM', 'PBSPRO_VNODE', 'PBSPRO_FILE', 'LSF', 'COBALT_FILE', 'CO
        'TORQUE', 'CCM']
 
 DEVS = ['DevKeepDuplicates', 'DevKeepPseudo', 'DevSmtTwice', 'DevNoCut', 'DevAgentsStay',
-        'DevBackupAfterCut', 'DevCopyDropsService']
+        'DevBackupAfterCut', 'DevCopyDropsService', 'DevRegistryKeyCase']
 
 # the invariants of C18 (+ the model's own consistency), and the one that is not (D20)
 INVARIANTS = ['TypeOK', 'InvParsedOnePerNode', 'InvOnePerNode', 'InvSized', 'InvDisjoint',
@@ -31,7 +31,7 @@ INVARIANTS = ['TypeOK', 'InvParsedOnePerNode', 'InvOnePerNode', 'InvSized', 'Inv
               'InvExpected', 'InvBackupKept']
 
 SMALL = dict(maxhosts=3, orders=['asc', 'rot'], cores=[2], smt=[1, 2],
-             gpus=[(0, ()), (2, (1,))], bcs=[(), (0,)], backups=[0, 1], agents=[0, 1, 2])
+             gpus=[(0, ()), (2, ()), (2, (1,))], bcs=[(), (0,)], backups=[0, 1], agents=[0, 1, 2])
 LARGE = dict(maxhosts=4, orders=['asc', 'desc', 'rot'], cores=[2, 3], smt=[1, 2],
              gpus=[(0, ()), (2, (1,))], bcs=[(), (0,)], backups=[0, 1], agents=[0, 1, 2])
 
@@ -161,7 +161,8 @@ def run(chk, tier, seed):
                   ('DevNoCut', 'filter', 'InvNotLonger'),
                   ('DevAgentsStay', 'filter', 'InvDisjoint'),
                   ('DevBackupAfterCut', 'filter', 'InvBackupKept'),
-                  ('DevCopyDropsService', 'filter', 'InvSameEverywhere')]
+                  ('DevCopyDropsService', 'filter', 'InvSameEverywhere'),
+                  ('DevRegistryKeyCase', 'filter', 'InvSameEverywhere')]
         for dev, sweep, inv in expect:
             res = tlc.run('RMNodes', 'MC', 'MC.cfg', workers=w, timeout=900,
                           extra_files=mc_files(SMALL, sweep, devs=[dev], invariants=[inv]))
@@ -189,8 +190,10 @@ def run(chk, tier, seed):
         '(ru.get_hostlist pads "node[8-10]" to node08.. - radical.utils, outside /repo)',
         'backup-node ssh probing is stubbed to "all reachable"; qstat is stubbed (answer generated '
         'from the TLC state, or "not found" for the node file fallback)',
-        'the registry hand-over is as_dict() sent twice through ru msgpack (as ru.zmq client/server '
-        'do) and RMInfo(...).verify() on the receiving side; no ZeroMQ involved',
+        'the registry is an in-memory stand-in for ru.zmq.RegistryClient (get/put/close on a dict shared '
+        'by the components of one pilot, values sent through ru msgpack); both components are built by the '
+        'real ResourceManager.__init__, launch method preparation stubbed; between the two constructions '
+        'the batch environment is wiped or one node stops answering the reachability probe',
         'RMInfo list/dict defaults are reset between constructions (shared mutable defaults are a '
         'harness artefact: production builds one RMInfo per process)']
 
